@@ -16,3 +16,71 @@ def heat(T, coords, P, steady):
     if not steady:
         r = r + g('rho') * cp * D(T, TT)
     return r
+
+
+def flow(fields, coords, P, t=None, axisymmetric=False, viscous=None, asbuilt=None):
+    """Residuals of the compressible Euler / Navier-Stokes equations in conservative form.
+    fields: dict rho,u[,v][,w],p (terms).  coords: list of spatial coordinate symbols.
+    Cartesian: velocity components (u,v,w) along coords.  Axisymmetric: coords=(r,z), velocity (u radial, w axial).
+    viscous: None (Euler) or dict(mu=..., k=..., R=..., bulk=lambda coefficient or None for -2/3 mu).
+    Returns dict: 'rho', 'rho_u', ['rho_v'], ['rho_w'], 'rho_e'."""
+    rho, p = fields['rho'], fields['p']
+    G = P['Gamma']
+    if axisymmetric:
+        r, z = coords
+        vel = [fields['u'], fields['w']]
+        names = ['u', 'w']
+    else:
+        names = ['u', 'v', 'w'][:len(coords)]
+        vel = [fields[n] for n in names]
+    ke = tm.ZERO
+    for c in vel:
+        ke = ke + c * c
+    et = p / ((G - 1) * rho) + ke / 2
+    H = et + p / rho
+
+    def ddt(q):
+        return D(q, t) if t is not None else tm.ZERO
+
+    def div(fl):
+        """divergence of the vector with components fl along coords"""
+        if axisymmetric:
+            return D(r * fl[0], r) / r + D(fl[1], z)
+        s = tm.ZERO
+        for f, c in zip(fl, coords):
+            s = s + D(f, c)
+        return s
+
+    res = {}
+    res['rho'] = ddt(rho) + div([rho * c for c in vel])
+    for i, n in enumerate(names):
+        res['rho_' + n] = ddt(rho * vel[i]) + div([rho * vel[i] * c for c in vel]) + D(p, coords[i])
+    res['rho_e'] = ddt(rho * et) + div([rho * c * H for c in vel])
+    if viscous is not None:
+        mu, k, R = viscous['mu'], viscous['k'], viscous['R']
+        T = p / (rho * R)
+        dv = div(vel)
+        lam = viscous.get('bulk')
+        if lam is None:
+            lam = -(tm.TWO / 3) * mu
+        n = len(vel)
+        grad = [[D(vel[j], coords[i]) for j in range(n)] for i in range(n)]      # grad[i][j] = d u_j / d x_i
+        tau = [[mu * (grad[i][j] + grad[j][i]) + (lam * dv if i == j else tm.ZERO) for j in range(n)] for i in range(n)]
+        if asbuilt and asbuilt.get('tau_rz_without_dw_dr'):
+            # as-built model of the axisymmetric solutions (known finding): shear stress mu*du/dz only
+            tau[0][1] = tau[1][0] = mu * grad[1][0]
+        q = [-k * D(T, c) for c in coords]
+        for i, nm in enumerate(names):
+            visc = div([tau[i][j] for j in range(n)])
+            if axisymmetric and i == 0 and not (asbuilt and asbuilt.get('no_hoop_stress')):
+                tau_tt = 2 * mu * vel[0] / r + lam * dv
+                visc = visc - tau_tt / r
+            res['rho_' + nm] = res['rho_' + nm] - visc
+        work = [sum((vel[i] * tau[i][j] for i in range(n)), tm.ZERO) - q[j] for j in range(n)]
+        if asbuilt and asbuilt.get('energy_viscous_work_sign_flipped'):
+            # as-built model (known finding): viscous work enters the energy source with the opposite sign
+            workv = [sum((vel[i] * tau[i][j] for i in range(n)), tm.ZERO) for j in range(n)]
+            res['rho_e'] = res['rho_e'] + div(workv) + div(q)
+        else:
+            res['rho_e'] = res['rho_e'] - div(work)
+    return res
